@@ -621,6 +621,61 @@ class _Fold(ast.NodeTransformer):
         return node
 
 
+def desugar_walrus(fn):
+    """`if (x := E): ...` / `y = f((x := E))` / `return (x := E)`: the binding is hoisted in front of the statement when the assignment
+    expression is evaluated unconditionally and before anything else that can have an effect (only names, constants and attribute loads
+    precede it).  `while` tests and comprehensions keep their assignment expressions."""
+    from .ts import postorder
+
+    def hoistable(stmt, header):
+        for n in postorder(header):
+            if isinstance(n, ast.NamedExpr) and isinstance(n.target, ast.Name):
+                # nothing effectful may be evaluated before the value of the assignment expression
+                inner = {id(x) for x in ast.walk(n)}
+                ok = True
+                for m in postorder(header):
+                    if id(m) in inner:
+                        break
+                    if not isinstance(m, (ast.Name, ast.Constant, ast.Attribute, ast.expr_context)):
+                        ok = False
+                        break
+                conditional = False
+                for sc in ast.walk(header):
+                    if isinstance(sc, (ast.Lambda, ast.ListComp, ast.SetComp, ast.DictComp, ast.GeneratorExp)) and any(x is n for x in ast.walk(sc)):
+                        conditional = True
+                    if isinstance(sc, ast.BoolOp) and any(any(x is n for x in ast.walk(v)) for v in sc.values[1:]):
+                        conditional = True
+                    if isinstance(sc, ast.IfExp) and any(any(x is n for x in ast.walk(v)) for v in (sc.body, sc.orelse)):
+                        conditional = True
+                if ok and not conditional:
+                    return n
+                return None
+        return None
+
+    def fblock(stmts):
+        out = []
+        for s in stmts:
+            for _ in range(4):
+                header = s.test if isinstance(s, ast.If) else (s.value if isinstance(s, (ast.Assign, ast.Expr, ast.Return, ast.AugAssign)) and getattr(s, "value", None) is not None else None)
+                if header is None:
+                    break
+                n = hoistable(s, header)
+                if n is None:
+                    break
+                out.append(ast.copy_location(ast.Assign(targets=[ast.Name(id=n.target.id, ctx=ast.Store())], value=n.value), s))
+                repl = ast.copy_location(ast.Name(id=n.target.id, ctx=ast.Load()), n)
+                if header is n:
+                    if isinstance(s, ast.If):
+                        s.test = repl
+                    else:
+                        s.value = repl
+                else:
+                    _ReplaceNode(n, repl).visit(header)
+            out.append(s)
+        return out
+    return _map_blocks(fn, fblock)
+
+
 def split_unpacking(fn):
     """`a, b = (E(x) for x in Y)` (or the list form; one generator, no filter)  ->  `_u1, _u2 = Y; a = E(_u1); b = E(_u2)`"""
     def fblock(stmts):
@@ -1007,9 +1062,12 @@ def inline_function(ix, f, depth=2, _stack=(), keep=frozenset(), fn=None):
     return fn
 
 
-def propagate_aliases(fn):
-    """a local bound exactly once to a plain attribute chain of a never-rebound name (`program = self._program`, `token = expr.start`) is
-    replaced by that chain in its later uses, provided no prefix of the chain is assigned anywhere in the function"""
+def propagate_aliases(fn, accessors=frozenset()):
+    """a local bound exactly once to another name for an existing object is replaced by what it stands for in its later uses:
+       - a plain attribute chain / parse-tree accessor chain of a name that is bound at most once (`program = self._program`,
+         `shape_ctx = ctx.shape()`, `append = args.append`), provided no prefix of the chain is assigned anywhere in the function;
+       - a module-level name (`var_table = _VAR`);
+       - an element of a module-level table selected by a name bound at most once (`cast = PYTHON_TYPES[vartype]`)."""
     stores = {}
     attr_stores = set()
     for n in ast.walk(fn):
@@ -1021,29 +1079,65 @@ def propagate_aliases(fn):
             for x in n.names:
                 stores[x] = stores.get(x, 0) + 2
     params = {a.arg for a in fn.args.posonlyargs + fn.args.args + fn.args.kwonlyargs}
+    for p_ in params:
+        stores[p_] = stores.get(p_, 0)          # a parameter that is never assigned counts as bound once (at entry)
+    loop_targets = set()
+    for n in ast.walk(fn):
+        if isinstance(n, (ast.For, ast.comprehension)):
+            loop_targets |= {x.id for x in ast.walk(n.target) if isinstance(x, ast.Name)}
+
+    def stable(name):
+        """the name denotes one object throughout: a never-assigned parameter / global, or a local assigned exactly once outside loops' targets"""
+        if name in loop_targets:
+            return False
+        return stores.get(name, 0) == 0 or (stores.get(name, 0) == 1 and name not in params)
 
     def chain(e):
         parts = []
-        while isinstance(e, ast.Attribute):
-            parts.append(e.attr)
-            e = e.value
+        while True:
+            if isinstance(e, ast.Attribute):
+                parts.append(e.attr)
+                e = e.value
+            elif accessors and isinstance(e, ast.Call) and not e.args and not e.keywords and isinstance(e.func, ast.Attribute) and e.func.attr in accessors:
+                parts.append(e.func.attr + "()")        # generated parse-tree accessor: a pure read
+                e = e.func.value
+            else:
+                break
         if isinstance(e, ast.Name) and parts:
+            if any(p_.endswith("()") for p_ in parts) and parts[0] in ("getText()", "getChildren()", "getChildCount()"):
+                return None        # a text / list value read from the tree is a value in its own right, not an alias of a tree node
             return e.id, list(reversed(parts))
         return None
 
+    callfree_def = {}
+    for n in ast.walk(fn):
+        if isinstance(n, ast.Assign) and len(n.targets) == 1 and isinstance(n.targets[0], ast.Name) and stores.get(n.targets[0].id) == 1:
+            callfree_def[n.targets[0].id] = not any(isinstance(x, ast.Call) for x in ast.walk(n.value))
     cands = {}
     for n in ast.walk(fn):
-        if isinstance(n, ast.Assign) and len(n.targets) == 1 and isinstance(n.targets[0], ast.Name) and stores.get(n.targets[0].id) == 1 and n.targets[0].id not in params:
-            c = chain(n.value)
+        if isinstance(n, ast.Assign) and len(n.targets) == 1 and isinstance(n.targets[0], ast.Name) and stores.get(n.targets[0].id) == 1 and n.targets[0].id not in params \
+                and n.targets[0].id not in loop_targets:
+            v = n.value
+            if isinstance(v, ast.Name) and stores.get(v.id, 0) == 0 and v.id not in params and v.id not in ("True", "False", "None"):
+                cands[n.targets[0].id] = (n, v)                       # another name for a module-level object
+                continue
+            if isinstance(v, ast.Subscript) and isinstance(v.value, ast.Name) and stores.get(v.value.id, 0) == 0 and v.value.id not in params and v.value.id.isupper() \
+                    and isinstance(v.slice, ast.Name) and stable(v.slice.id):
+                cands[n.targets[0].id] = (n, v)                       # TABLE[key]
+                continue
+            c = chain(v)
             if c is None:
                 continue
             root, parts = c
-            if stores.get(root, 0) != 0 or (root not in params and root != "self"):
+            if not stable(root) or not (root in params or root == "self" or stores.get(root, 0) <= 1):
                 continue
+            if any(p_.endswith("()") for p_ in parts) and root not in params and not callfree_def.get(root, False):
+                continue           # accessor calls are known to be pure reads only on context objects: what a handler receives, or a
+                                   # local bound once to a call-free expression over such objects (`ctx = e.ctx if e else recognizer._ctx`)
             prefixes = {root + "".join("." + p_ for p_ in parts[:k]) for k in range(1, len(parts) + 1)}
             if prefixes & attr_stores:
                 continue
-            cands[n.targets[0].id] = (n, n.value)
+            cands[n.targets[0].id] = (n, v)
     if not cands:
         return fn
 
@@ -1059,6 +1153,59 @@ def propagate_aliases(fn):
     fn = S().visit(fn)
     ast.fix_missing_locations(fn)
     return fn
+
+
+def propagate_block_aliases(fn, accessors=frozenset()):
+    """flow-sensitive, block-local form of propagate_aliases for locals that are bound several times (`value_ctx = arg.expression()` in
+    one branch, `value_ctx = v.expression()` in another): after `x = <parse-tree accessor chain of a parameter or loop variable>` the
+    later statements of the same block read the chain instead of x, up to the first statement that may rebind x or the chain's root"""
+    def chain_root(e):
+        n_calls = 0
+        while True:
+            if isinstance(e, ast.Attribute):
+                e = e.value
+            elif isinstance(e, ast.Call) and not e.args and not e.keywords and isinstance(e.func, ast.Attribute) and e.func.attr in accessors \
+                    and e.func.attr not in ("getText", "getChildren", "getChildCount"):
+                n_calls += 1
+                e = e.func.value
+            else:
+                break
+        return e.id if isinstance(e, ast.Name) and n_calls else None
+
+    def stores_in(node):
+        return {n.id for n in ast.walk(node) if isinstance(n, ast.Name) and isinstance(n.ctx, (ast.Store, ast.Del))}
+
+    # context objects: what a handler receives, and the elements of the child lists it iterates
+    ctx_names = {a.arg for a in fn.args.posonlyargs + fn.args.args + fn.args.kwonlyargs}
+    for n in ast.walk(fn):
+        if isinstance(n, ast.For):
+            ctx_names |= {x.id for x in ast.walk(n.target) if isinstance(x, ast.Name)}
+
+    def fblock(stmts):
+        stmts = list(stmts)
+        for i, s in enumerate(stmts):
+            if not (isinstance(s, ast.Assign) and len(s.targets) == 1 and isinstance(s.targets[0], ast.Name)):
+                continue
+            x, v = s.targets[0].id, s.value
+            root = chain_root(v)
+            if root is None or root == x or root not in ctx_names:
+                continue
+            sub = _Sub({x: v})
+            for j in range(i + 1, len(stmts)):
+                st = stores_in(stmts[j])
+                if st & {x, root}:
+                    break
+                stmts[j] = sub.visit(stmts[j])
+        return stmts
+    fn = _map_blocks(fn, fblock)
+    # a local that is no longer read anywhere was only such an alias: its (pure) bindings are dropped, which also restores `elif` chains
+    reads = {n.id for n in ast.walk(fn) if isinstance(n, ast.Name) and isinstance(n.ctx, ast.Load)}
+
+    def drop(stmts):
+        out = [s for s in stmts if not (isinstance(s, ast.Assign) and len(s.targets) == 1 and isinstance(s.targets[0], ast.Name) and s.targets[0].id not in reads
+                                        and chain_root(s.value) in ctx_names)]
+        return out or [ast.Pass()]
+    return _map_blocks(fn, drop)
 
 
 def eliminate_temporaries(fn):
@@ -1132,6 +1279,7 @@ def normal_form(ix, f, keep):
     fn = copy.deepcopy(f.node)
     passes = [
         lambda t: desugar_match(t),
+        lambda t: desugar_walrus(t),
         lambda t: fold_constants(t, consts, single),
         lambda t: unroll_const_loops(t, consts, single),
         lambda t: materialise_generators(ix, f, t, keep),
@@ -1140,7 +1288,8 @@ def normal_form(ix, f, keep):
         lambda t: inline_expressions(ix, f, t, keep=keep),
         lambda t: fold_constants(t, consts, single),
         lambda t: split_unpacking(t),
-        lambda t: propagate_aliases(t),
+        lambda t: propagate_aliases(t, ix.accessor_names()),
+        lambda t: propagate_block_aliases(t, ix.accessor_names()),
         lambda t: propagate_templates(t),
         lambda t: eliminate_temporaries(t),
     ]
